@@ -1107,6 +1107,22 @@ func (x *omRun) runCall(ctx context.Context, repo omRepo, st *omTaskState, who s
 					}
 				}
 			}
+			// ... and writes through its pointer fields (the ordinary way to edit an optional field): harmless unless
+			// decoded entities share the pointed-to values
+			for i := 0; i < f.NumField(); i++ {
+				fv := f.Field(i)
+				if fv.Kind() != reflect.Ptr || fv.IsNil() || !fv.Elem().CanSet() {
+					continue
+				}
+				switch el := fv.Elem(); el.Kind() {
+				case reflect.Bool:
+					el.SetBool(!el.Bool())
+				case reflect.Int64:
+					el.SetInt(el.Int() ^ 0x55)
+				case reflect.String:
+					el.SetString(el.String() + "~scribbled")
+				}
+			}
 			return "scribbled"
 		}
 		return "nothing-to-scribble"
